@@ -15,7 +15,8 @@ Sl(arr, e) == [t |-> "sl", arr |-> arr, ety |-> "typed", slack |-> 0, e |-> e]
 SlP(e) == [t |-> "sl", arr |-> FALSE, ety |-> "ptr", slack |-> 0, e |-> e]          \* []*int
 SlA(e) == [t |-> "sl", arr |-> FALSE, ety |-> "any", slack |-> 0, e |-> e]          \* []any
 Mp(ks, vs) == [t |-> "mp", ks |-> ks, vs |-> vs]
-St(a, p, c) == [t |-> "st", a |-> a, p |-> p, c |-> c]
+St(a, p, c) == [t |-> "st", a |-> a, p |-> p, c |-> c, sty |-> "plain"]
+StE(a, c, y) == [t |-> "st", a |-> a, p |-> <<>>, c |-> c, sty |-> y]
 Mpa(ks, e) == [t |-> "mpa", ks |-> ks, e |-> e]
 
 Ints == <<I(<<"1">>), I(<<"2">>), I(<<"3">>)>>
@@ -31,7 +32,8 @@ Leaves == {I(<<"5">>), S(<<"x">>), B, TrNil,
            SlA(<<SlA(<<S(<<"z">>), Ptr(1, I(<<"5">>))>>), I(<<"2">>)>>),
            Mp(<<>>, <<>>), Mp(<<<<"k">>>>, <<<<"1">>>>), Mp(<<<<"k">>, <<"j">>>>, <<<<"1">>, <<"2">>>>),
            Mpa(<<<<"k">>>>, <<TrNil>>), Mpa(<<<<"k">>, <<"j">>>>, <<S(<<"x">>), TrNil>>), Mpa(<<<<"k">>, <<"j">>>>, <<I(<<"5">>), S(<<"y">>)>>),
-           St(<<"1">>, <<"p">>, <<"c">>), Ptr(1, St(<<"2">>, <<"r">>, <<"d">>))}
+           St(<<"1">>, <<"p">>, <<"c">>), Ptr(1, St(<<"2">>, <<"r">>, <<"d">>)),
+           StE(<<"1">>, <<"c">>, "embp"), StE(<<"1">>, <<"c">>, "embx"), Ptr(1, StE(<<"2">>, <<"d">>, "embp"))}
 
 \* one leaf (or a pair of leaves) in each position: element of a stack, Condition expression, nested
 Flat  == {[TrStk(k, <<l>>) EXCEPT !.cap = c] : k \in {"AND", "LIST", "BASIC"}, l \in Leaves, c \in {0, 3}}
